@@ -124,6 +124,18 @@ static void or_event(int t, int argc, char **w)
 		k = or_node_of(w[1]);
 		if (!(or_n[k].st == NS_OWNED && or_n[k].owner == t)) OR_FAIL("recycled", "T%d initialises n%d it does not own", t, k);
 		or_n[k].next_stored = 0;
+	} else if (!strcmp(op, "NEXT")) {
+		/* lfstack iteration (plain loads): node, successor read */
+		k = or_node_of(w[1]);
+		or_stats[6]++;
+		if (!(or_n[k].st == NS_LIMBO && or_n[k].owner == t && th->pos < th->nlist && th->list[th->pos] == k))
+			OR_FAIL("lifo", "T%d iterates over n%d which is not its current popped node", t, k);
+		else {
+			or_tok(b, th->pos + 1 < th->nlist ? th->list[th->pos + 1] : -1);
+			if (strcmp(w[2], b)) OR_FAIL("lifo", "iteration after n%d continues with %s, popped list continues with %s", k, w[2], b);
+			or_n[k].st = NS_POPPED; or_n[k].owner = t;
+			th->pos++;
+		}
 	} else if (!strcmp(op, "CALL")) {
 		th->lin = th->saw_null = th->cas_failed = 0;
 		th->exp[0] = 0; th->exp_state = -1;
